@@ -1006,7 +1006,66 @@ def run_limit(c):
     return r
 
 
+# ----------------------------------------------------------------------
+# part `dump`: the planes as a user sees them - the z column of the csv dumps
+def dump_cases(tier):
+    out = []
+    for unit in (('m', 'cm') if tier == 'quick' else ('m', 'cm', 'ft')):
+        for planes in ([0.1234567, 0.2, 0.2000004], [0.05, 0.3000001]):
+            out.append({'part': 'dump', 'unit': unit, 'planes': planes})
+    return out
+
+
+def run_dump(c):
+    """every plane of the real mesh appears, with its value, in the z column of a dump written at every step (and
+    therefore every requested plane and boundary does): strictly increasing, equal to Reactor.z to 1e-12 m"""
+    import os
+    r = new_result()
+    V = r['violations']
+    f = UNITF[c['unit']]
+    dsn = S.design(2)
+    scn = S.single(dsn, 0.5, length=0.4, power={'rings': 2, 'cells': [0.0, 0.2, 0.4], 'q': 1000.0, 'pins': 'uniform'},
+                   setup={'axial_plane': list(c['planes']), 'Dump': {'average': True}})
+    if c['unit'] != 'm':
+        from . import c17
+        scn = c17.convert_scenario(scn, c['unit'], 'kelvin', 'kg/s')
+    with S.Built(scn) as b:
+        try:
+            rx = b.reactor(write_output=True)
+            rx.temperature_sweep()
+        except SystemExit as e:
+            V.append(violation('dump-run-rejected', c, 'valid input rejected', site=site_of(e)))
+            r['outcome'] = 'violation'
+            return r
+        fn = os.path.join(b.dir, 'temp_average.csv')
+        rows = [ln.split(',') for ln in open(fn).read().strip().split('\n') if ln.strip()]
+        zs = [float(x[1]) for x in rows]
+        want = [float(z) for z in rx.z[1:]]
+        r['states'] = len(want)
+        r['transitions'] = len(want)
+        r['traces'] = 1
+        r['nontrivial'] = True
+        if len(zs) != len(want) or any(abs(a_ - b_) > 1e-12 for a_, b_ in zip(zs, want)):
+            k = next((i for i, (a_, b_) in enumerate(zip(zs, want)) if abs(a_ - b_) > 1e-12), min(len(zs), len(want)))
+            V.append(violation('dump-planes-differ', c, 'z column of temp_average.csv is not the sequence of planes of the '
+                               'mesh (%d rows, %d planes; first difference at row %d)' % (len(zs), len(want), k),
+                               zs[k] if k < len(zs) else None, want[k] if k < len(want) else None, 1e-12,
+                               site='assembly.py:write'))
+        for p_ in c['planes']:
+            if not any(abs(z - p_) <= 5e-10 + 1e-12 for z in zs):
+                V.append(violation('dump-plane-missing', dict(c, plane=p_), 'requested plane %.9g m does not appear in the '
+                                   'z column of the dump' % p_, None, p_, 5e-10, site='assembly.py:write'))
+                break
+        if any(b_ <= a_ for a_, b_ in zip(zs, zs[1:])):
+            V.append(violation('dump-planes-not-increasing', c, 'z column of the dump is not strictly increasing',
+                               site='assembly.py:write'))
+    r['outcome'] = 'ok' if not V else 'violation'
+    return r
+
+
 def run_case(c):
+    if c.get('part') == 'dump':
+        return run_dump(c)
     if c.get('part') == 'limit':
         return run_limit(c)
     if c.get('part') == 'ctor':
@@ -1136,10 +1195,14 @@ def main(run):
 
     # Part C ------------------------------------------------------------
     run.explore('limit', limit_cases(run.tier), run_limit, budget_s=300, chunksize=1)
+    # Part D ------------------------------------------------------------
+    run.explore('dump', dump_cases(run.tier), run_dump, budget_s=300, chunksize=1)
 
 
 def replay(body):
     c = body['scenario']
+    if c.get('part') == 'dump':
+        c = {k: v for k, v in c.items() if k != 'plane'}
     if c.get('part') == 'limit':
         c = {k: v for k, v in c.items() if k not in ('probe', 'probe_dz', 'level')}
     if c.get('part') == 'ctor':
